@@ -58,7 +58,17 @@ MUTANTS = [
      "new": "            result[i] = indices[i]+toAdd"},
     {"id": "c02-starts-off-by-one-last", "property": "C02,C01", "file": L,
      "old": "            starts = small_size*ranks+nBig*ranks//nRanks",
-     "new": "            starts = small_size*ranks+(nBig*ranks+nRanks-1)//nRanks"},
+     "new": "            starts = small_size*ranks+(nBig*ranks+nRanks-1)//nRanks",
+     "expect": "quiet"},   # ceil instead of floor: still an exact balanced partition
+    {"id": "c02-partition-gap", "property": "C02", "file": L,
+     "old": "            starts = small_size*ranks+nBig*ranks//nRanks",
+     "new": "            starts = small_size*ranks+nBig*ranks//(nRanks+1)"},
+    {"id": "c02-unbalanced", "property": "C02", "file": L,
+     "old": "            starts = small_size*ranks+nBig*ranks//nRanks",
+     "new": "            starts = small_size*ranks+nBig*(ranks > 0)\n            big_size = small_size+nBig"},
+    {"id": "c02-geteta-revert", "property": "C02", "file": G,
+     "old": "            self._layout.starts[self._layout.inv_dims_order[i]]:\n            self._layout.ends[self._layout.inv_dims_order[i]]])",
+     "new": "            self._layout.starts[self._layout.dims_order[i]]:\n            self._layout.ends[self._layout.dims_order[i]]])"},
     # ---------------------------------------------------------------- C03
     {"id": "c03-drop-copy-after-gather", "property": "C03", "file": L,
      "old": "            # The data now resides on the wrong memory chunk and must be copied\n            dest[:] = source[:]",
@@ -108,6 +118,23 @@ MUTANTS = [
     {"id": "c20-max2-uses-npts1", "property": "C20", "file": PG,
      "old": "    max_proc2 = min(npts[2], npts[3])",
      "new": "    max_proc2 = min(npts[1], npts[3])"},
+    # ---------------------------------------------------------------- C05 (reverts of fixed defects + others)
+    {"id": "c05-flux-ignores-ridx", "property": "C05", "file": ADV,
+     "old": "                self.step(grid.get2DSlice(i, j), j, i)", "new": "                self.step(grid.get2DSlice(i, j), j)"},
+    {"id": "c05-vpar-local-z", "property": "C05", "file": ADV,
+     "old": "                        i, j, k), dt, parGradVals[i, zStart+j, k], r)\n\n    def gridStepKeepGradient",
+     "new": "                        i, j, k), dt, parGradVals[i, j, k], r)\n\n    def gridStepKeepGradient"},
+    {"id": "c05-init-poloidal-swaps-args", "property": "C05", "file": INI,
+     "old": "            init_f_pol(PoloidalSurface, r, theta, z, v,", "new": "            init_f_pol(PoloidalSurface, r, theta, v, z,"},
+    {"id": "c05-polsplines-global-index", "property": "C05", "file": ADV,
+     "old": "                np.real(phi.get2DSlice(j)), self._phiSplines[j])\n        # Do step\n        for i, v in grid.getCoords(0):\n            for j, _ in grid.getCoords(1):  # z\n                self.step(grid.get2DSlice(i, j), dt, self._phiSplines[j], v)\n\n    def gridStep_SplinesUnchanged",
+     "new": "                np.real(phi.get2DSlice(j)), self._phiSplines[j])\n        # Do step\n        for i, v in grid.getCoords(0):\n            for j, _ in grid.getCoords(1):  # z\n                self.step(grid.get2DSlice(i, j), dt, self._phiSplines[grid.getGlobalIdxVals(1)[j]], v)\n\n    def gridStep_SplinesUnchanged"},
+    {"id": "c05-density-local-feq", "property": "C05,C16", "file": PS,
+     "old": "            rho.getAllData(), self._fEq[rIndices], grid.getAllData(), self._quad_coeffs)",
+     "new": "            rho.getAllData(), self._fEq[:len(rIndices)], grid.getAllData(), self._quad_coeffs)"},
+    {"id": "c05-qn-local-mode-index", "property": "C05,C15", "file": PS,
+     "old": "            if (self._mVals[I] == 0):\n                stiffnessMatrix = self._stiffness0",
+     "new": "            if (self._mVals[i] == 0):\n                stiffnessMatrix = self._stiffness0"},
     # ---------------------------------------------------------------- C07
     {"id": "c07-find-span-gt", "property": "C07", "file": NU,
      "old": "    elif x >= knots[high]:\n        returnVal = high-1",
